@@ -47,6 +47,16 @@ class UnmanagedRoles:
         # semaphore (SEM); the one that receives a permit when an object is taken out for good is the size semaphore
         self.SEM = self._sem_called(self.OBJ_DROP, sems, ('add_permits',))
         self.SIZESEM = _one([x for x in sems if x != self.SEM], 'the other semaphore')
+        # the adders wait for / try to take a size slot themselves: an `add()` that only awaits another *public* function (a
+        # new entry point with a protocol of its own, e.g. `timeout_add(object, None)`) is not what the rules for add were written for
+        self.ADD_DELEGATES = None          # (raised by the properties that are about adding: C05)
+        for role_b in (self.ADD, self.TRY_ADD):
+            if not any(blk.term.kind == 'call' and any(n.startswith('tokio::sync::Semaphore::') for n in blk.term.callee_names()) for blk in role_b.blocks):
+                deleg = sorted({n for blk in role_b.blocks if blk.term.kind == 'call' for n in blk.term.callee_names()
+                                if n.startswith('deadpool::unmanaged::Pool') and any(x.j.get('vis') == 'pub' for x in prog.by_name.get(n, []))})
+                if deleg:
+                    self.ADD_DELEGATES = ('%s takes no size slot itself but delegates to the public %s: the rules for add / try_add do not cover that entry point'
+                                    % (role_b.name, ', '.join(d.split('::')[-1] for d in deleg)))
         # counters through status()
         an = prog.an(self.STATUS)
         self.SIZE = self.AVAIL = None
